@@ -585,7 +585,7 @@ type c02Acc struct {
 
 func runC02(tier string) int {
 	c := ev.New("C02", tier)
-	c.Budget(map[string]int{"quick": 230, "thorough": 2600}[tier])
+	c.Budget(map[string]int{"quick": 480, "thorough": 2600}[tier])
 	r := &c02Run{c: c, tier: tier, accByOp: map[string]int{}, candByCx: map[string]int{}, distinct: map[string]bool{}, sigSeen: map[string]int{}, crashSamples: map[string]string{}}
 	types := c02Types()
 	only := os.Getenv("VERIF_ONLY") // dev filter: comma separated operator names
